@@ -87,6 +87,50 @@ Section Counting.
     induction ls as [|l t IH]; intros cs Hd; cbn [fold_left]; [exact Hd|]. apply IH.
     revert cs Hd. induction l as [|x r IHr]; intros cs Hd; cbn [fold_left]; [exact Hd|]. apply IHr. apply cadd_keys. exact Hd.
   Qed.
+
+  (* ---- the whole table: exactly the keys that occur, each with the number of sequences that carry it ---- *)
+  Definition pos_counts (cs : list (K * nat)) : Prop := Forall (fun kn => 0 < snd kn) cs.
+  Lemma cadd_pos k cs : pos_counts cs -> pos_counts (cadd k cs).
+  Proof.
+    unfold pos_counts. induction cs as [|[k0 n] t IH]; intros H; cbn [cadd].
+    - constructor; [cbn; lia|constructor].
+    - inversion H as [|? ? H1 H2]; subst. destruct (eqb k k0); constructor; cbn in *; try lia; auto.
+  Qed.
+  Lemma fold_pos ls : forall cs, pos_counts cs ->
+    pos_counts (fold_left (fun cs l => fold_left (fun cs x => cadd x cs) l cs) ls cs).
+  Proof.
+    induction ls as [|l t IH]; intros cs H; cbn [fold_left]; [exact H|]. apply IH.
+    revert cs H. induction l as [|x r IHr]; intros cs H; cbn [fold_left]; [exact H|]. apply IHr. apply cadd_pos. exact H.
+  Qed.
+  Lemma cget_In k cs : keys_distinct cs -> forall c, In (k, c) cs -> cget k cs = c.
+  Proof.
+    unfold keys_distinct. induction cs as [|[k0 n] t IH]; intros Hd c Hin; [contradiction|].
+    cbn [map fst] in Hd. inversion Hd as [|? ? Hn Hd']; subst. cbn [cget]. destruct Hin as [E|Hin].
+    - injection E as -> ->. rewrite eqb_refl. reflexivity.
+    - destruct (eqb k k0) eqn:E; [|apply IH; assumption]. apply eqb_eq in E. subst k0.
+      exfalso. apply Hn. apply (in_map fst) in Hin. exact Hin.
+  Qed.
+  Lemma In_cget k cs : 0 < cget k cs -> In (k, cget k cs) cs.
+  Proof.
+    induction cs as [|[k0 n] t IH]; cbn [cget]; [lia|]. destruct (eqb k k0) eqn:E; intros H.
+    - apply eqb_eq in E. subst k0. left; reflexivity.
+    - right. apply IH. exact H.
+  Qed.
+  Theorem aggregate_table ls : Forall (@NoDup K) ls -> forall k c,
+    In (k, c) (fold_left (fun cs l => fold_left (fun cs x => cadd x cs) l cs) ls []) <->
+    0 < c /\ c = length (filter (fun l => existsb (eqb k) l) ls).
+  Proof.
+    intros Hnd k c. set (cs := fold_left _ ls []).
+    assert (Hd : keys_distinct cs) by (apply aggregate_keys_distinct; constructor).
+    assert (Hp : pos_counts cs) by (apply fold_pos; constructor).
+    assert (Hc : cget k cs = length (filter (fun l => existsb (eqb k) l) ls)).
+    { unfold cs. rewrite aggregate_counts. cbn [cget]. apply aggregate_counts_sequences. exact Hnd. }
+    split.
+    - intros Hin. split.
+      + unfold pos_counts in Hp. rewrite Forall_forall in Hp. apply (Hp (k, c) Hin).
+      + rewrite <- Hc. symmetry. apply cget_In; assumption.
+    - intros (H0 & ->). rewrite <- Hc. apply In_cget. rewrite Hc. exact H0.
+  Qed.
 End Counting.
 
 (* instantiation for snps: snp_eqb decides equality, count_snp is cadd *)
@@ -125,3 +169,52 @@ Proof.
 Qed.
 Theorem snps_agg_ordered counts : sorted (snp * nat) snp_lt (ssort (snp * nat) snp_lt counts).
 Proof. apply ssort_sorted; [exact snp_lt_irrefl|exact snp_lt_trans]. Qed.
+
+(* ---- snps --aggregate, the table before the threshold: sorted, each SNP once, exactly the SNPs that occur in some
+   sequence's list, each with the number of sequences whose list contains it ---- *)
+From Coq Require Import Permutation.
+Lemma count_snp_fold (lists : list (list snp)) : forall cs,
+  fold_left (fun cs l => fold_left (fun cs s => count_snp s cs) l cs) lists cs =
+  fold_left (fun cs l => fold_left (fun cs x => cadd snp snp_eqb x cs) l cs) lists cs.
+Proof.
+  induction lists as [|l t IH]; intros cs; cbn [fold_left]; [reflexivity|]. rewrite IH. f_equal.
+Qed.
+Theorem snps_agg_table (lists : list (list snp)) : Forall (@NoDup snp) lists ->
+  let S := ssort (snp * nat) snp_lt (fold_left (fun cs l => fold_left (fun cs s => count_snp s cs) l cs) lists []) in
+  sorted (snp * nat) snp_lt S /\ NoDup (map fst S) /\
+  forall k c, In (k, c) S <-> (0 < c)%nat /\ c = length (filter (fun l => existsb (snp_eqb k) l) lists).
+Proof.
+  intros Hnd S.
+  pose proof (count_snp_fold lists []) as E.
+  pose proof (ssort_perm (snp * nat) snp_lt (fold_left (fun cs l => fold_left (fun cs s => count_snp s cs) l cs) lists [])) as HP.
+  fold S in HP. split; [apply snps_agg_ordered|]. split.
+  - apply (Permutation_NoDup (l := map fst (fold_left (fun cs l => fold_left (fun cs s => count_snp s cs) l cs) lists []))).
+    + apply Permutation_map. apply Permutation_sym. exact HP.
+    + rewrite E. apply (aggregate_keys_distinct snp snp_eqb snp_eqb_eq). constructor.
+  - intros k c. rewrite <- (aggregate_table snp snp_eqb snp_eqb_eq lists Hnd k c). rewrite <- E.
+    split; intros H; [apply (Permutation_in _ HP); exact H|apply (Permutation_in _ (Permutation_sym HP)); exact H].
+Qed.
+
+(* the per-sequence lists the command builds are duplicate-free *)
+Lemma snps_lists_nodup refseq recs ls : snps_lists refseq recs = Ok ls -> Forall (@NoDup snp) ls.
+Proof.
+  revert ls. induction recs as [|r t IH]; intros ls H; cbn [snps_lists] in H.
+  - injection H as <-. constructor.
+  - destruct (Nat.eqb (length (r_seq r)) (length refseq)); [|discriminate].
+    destruct (snps_lists refseq t) as [rest| |] eqn:E; cbn [bind] in H; try discriminate.
+    injection H as <-. constructor; [apply get_snps_from_nodup|apply IH; reflexivity].
+Qed.
+
+(* the printed rows: the table rows whose frequency count/n (float64 division) is not below the threshold, in table order,
+   each as  SNP,frequency to 9 decimals *)
+Lemma concat_map_if {A B} (p : A -> bool) (f : A -> list B) (l : list A) :
+  concat (map (fun x => if p x then [] else f x) l) = concat (map f (filter (fun x => negb (p x)) l)).
+Proof. induction l as [|x t IH]; [reflexivity|]. cbn [map concat filter]. destruct (p x); cbn [negb map concat]; rewrite IH; reflexivity. Qed.
+Theorem snps_agg_rows_spec thr lists :
+  let n := length lists in
+  let freq (kn : snp * nat) := f64_div_Z (Z.of_nat (snd kn)) (Z.of_nat n) in
+  snps_agg_rows thr lists =
+  concat (map (fun kn => snp_bytes (fst kn) ++ [44%N] ++ fmt_f9 (freq kn) ++ [NL])
+              (filter (fun kn => negb (f64_ltb (freq kn) thr))
+                      (ssort (snp * nat) snp_lt (fold_left (fun cs l => fold_left (fun cs s => count_snp s cs) l cs) lists [])))).
+Proof. intros n freq. unfold snps_agg_rows. apply (concat_map_if (fun kn => f64_ltb (freq kn) thr)). Qed.
